@@ -28,6 +28,14 @@ class VBase(BaseException):
     pass
 
 
+class VCustomInit(Exception):
+    """An exception class with its own __init__ signature (one argument in, two in .args): the default pickle
+    reconstruction `cls(*args)` of such an exception fails - it must never have to travel through pickle unasked."""
+
+    def __init__(self, what='?'):
+        super().__init__(what, 'detail')
+
+
 class VFalsy(Exception):
     """An exception whose instances are falsy (a container-like error, e.g. a collection of validation errors that
     defines __len__): `if error:` is not a test for "an error happened"."""
@@ -43,7 +51,7 @@ def exc_class(name):
     if name == 'FilterException':
         import lazy_dataset
         return lazy_dataset.FilterException
-    return {'VErrA': VErrA, 'VErrB': VErrB, 'VErrC': VErrC, 'VBase': VBase, 'VFalsy': VFalsy, 'Exception': Exception,
+    return {'VErrA': VErrA, 'VErrB': VErrB, 'VErrC': VErrC, 'VBase': VBase, 'VFalsy': VFalsy, 'VCustomInit': VCustomInit, 'Exception': Exception,
             'ValueError': ValueError, 'LookupError': LookupError, 'KeyError': KeyError,
             'IndexError': IndexError, 'OSError': OSError, 'FileNotFoundError': FileNotFoundError,
             'NotImplementedError': NotImplementedError, 'StopIteration': StopIteration}[name]
@@ -220,7 +228,7 @@ def f_boom(m, r, ename, i, x):
 
 def boom_model(m, r, ename, i, x):
     if boom_fails(m, r, x):
-        return Raise(ename, (crc(x),))
+        return Raise(ename, (crc(x), 'detail') if ename == 'VCustomInit' else (crc(x),))
     return ('m', i, x)
 
 
@@ -255,6 +263,8 @@ def f_boomset(failmap, i, x, noargs=False):
 def boomset_model(failmap, i, x, noargs=False):
     e = boomset_exc(failmap, x)
     if e is not None:
+        if e == 'VCustomInit':
+            return Raise(e, ('?' if noargs else str(source_leaf(x)[2]), 'detail'))
         return Raise(e, () if noargs else (str(source_leaf(x)[2]),))
     return ('m', i, x)
 
